@@ -757,6 +757,18 @@ def fam_wincmd(tier, outdir):
                         "obs": {"stderr": err.decode("utf8", "replace")[-1500:]}, "script": {"mode": m}})
     if curf:
         curf.close()
+    # several threads building command lines at once (ThreadSanitizer build): each result must be the one it gives alone
+    texe = vlib.build_win(tsan=True)
+    te = dict(os.environ); te["TSAN_OPTIONS"] = "exitcode=66 halt_on_error=0"
+    try:
+        tp = subprocess.run([texe, "threads"], capture_output=True, text=True, env=te, timeout=600)
+        trc, tout, terr = tp.returncode, tp.stdout, tp.stderr
+    except subprocess.TimeoutExpired as e:
+        trc, tout, terr = None, "", "(timeout)"
+    nrec += 80000
+    if trc != 0:
+        bad.append({"ok": 0, "kind": "crash", "fn": "wincmd", "status": trc, "call": {"fn": "wincmd", "mode": ["threads"]},
+                    "obs": {"stdout": tout[-300:], "stderr": terr[-1500:]}, "script": {"mode": ["threads"]}})
     procs = []
     for i, sh_ in enumerate(shards):
         e2 = dict(os.environ); e2["TRACE"] = sh_
